@@ -266,7 +266,7 @@ func HarnessOwnStep() {
 			conflict = vOr(conflict, vConflict(n, o))
 		}
 	}
-	err := r.installService(n)
+	err, _ := vCallMethod(r, "installService", n).(error)
 	vAssert((err == ErrorHostInUse) == conflict, "own: install rejected iff a pair is owned by a different service")
 	vAssert(err == nil || err == ErrorHostInUse, "own: no other error")
 	after := []*Service{}
@@ -306,8 +306,8 @@ func HarnessOwnRace() {
 	a := &Service{name: "a", options: ServiceOptions{Hosts: []string{h}, PathPrefixes: []string{"/"}}, pauseController: NewPauseController()}
 	b := &Service{name: "b", options: ServiceOptions{Hosts: []string{h}, PathPrefixes: []string{"/"}}, pauseController: NewPauseController()}
 	var ea, eb error
-	go func() { ea = r.installService(a) }()
-	go func() { eb = r.installService(b) }()
+	go func() { ea, _ = vCallMethod(r, "installService", a).(error) }()
+	go func() { eb, _ = vCallMethod(r, "installService", b).(error) }()
 	vJoinAll()
 	vAssert((ea == nil) != (eb == nil), "race: of two concurrent deploys for the same pair exactly one succeeds")
 	vAssert(ea == nil || ea == ErrorHostInUse, "race: loser gets the conflict error")
@@ -318,6 +318,48 @@ func HarnessOwnRace() {
 	}
 	vAssert(r.services.Get(winner.name) == winner && len(r.services.services) == 1, "race: only the winner is installed")
 	vAssert(vRaceCount() == 0, "race: no data race")
+	vCover(ea == nil, "a wins reachable")
+	vCover(eb == nil, "b wins reachable")
+}
+
+// HarnessDeployRace (T2): the same race through the public command: two overlapping deploys of different services that
+// claim the same host (both with a healthy target): exactly one succeeds, the host is routed to the winner, the
+// loser's target is no longer probed.
+func HarnessDeployRace() {
+	vT2(vParam("preemptions", 1), vParam("firings", 12))
+	if vParam("policies", 2) == 2 {
+		vSchedPolicy(vChoose("sched_policy", 2))
+	}
+	vSortMode = 0
+	r := NewRouter("/state")
+	topts := TargetOptions{HealthCheckConfig: HealthCheckConfig{Path: "/up", Interval: 1000, Timeout: 500}}
+	vProbeScripts["a0:80"] = &vProbeScript{parkAfter: true, outcomes: []vProbeOutcome{{kind: vProbeStatus, status: 200, latency: vDur("lat_a")}}}
+	vProbeScripts["b0:80"] = &vProbeScript{parkAfter: true, outcomes: []vProbeOutcome{{kind: vProbeStatus, status: 200, latency: vDur("lat_b")}}}
+	vAssume(vProbeScripts["a0:80"].outcomes[0].latency < 500 && vProbeScripts["b0:80"].outcomes[0].latency < 500)
+	var ea, eb error
+	done := 0
+	go func() {
+		ea = r.DeployService("a", []string{"a0:80"}, ServiceOptions{Hosts: []string{"h"}}, topts, 5000, 0)
+		done++
+	}()
+	go func() {
+		eb = r.DeployService("b", []string{"b0:80"}, ServiceOptions{Hosts: []string{"h"}}, topts, 5000, 0)
+		done++
+	}()
+	vBlockUntil(func() bool { return done == 2 })
+	vAssert((ea == nil) != (eb == nil), "deploy race: of two overlapping deploys for the same host exactly one succeeds")
+	vAssert((ea == nil || ea == ErrorHostInUse) && (eb == nil || eb == ErrorHostInUse), "deploy race: the loser gets the conflict error")
+	winner := "a"
+	if ea != nil {
+		winner = "b"
+	}
+	list := r.ListActiveServices()
+	_, okW := list[winner]
+	vAssert(okW && len(list) == 1, "deploy race: only the winner is listed")
+	req := vPlainRequest("/")
+	req.Host = "h"
+	svc, _ := r.serviceForRequest(req)
+	vAssert(svc != nil && svc.name == winner, "deploy race: the host is routed to the winner")
 	vCover(ea == nil, "a wins reachable")
 	vCover(eb == nil, "b wins reachable")
 }
